@@ -67,6 +67,11 @@ pub trait Subject {
     fn est_after(&self, _script: &[EstStep], _ident: u32) -> Option<caches::verif::TinyLFUState> {
         None
     }
+    /// full forward and full backward traversal of list `list` through the public `iter()`
+    /// family, plus the list's public length (C14's self-consistency probe)
+    fn iter_probe(&self, _list: usize) -> Option<(Vec<(u32, u64)>, Vec<(u32, u64)>, usize)> {
+        None
+    }
     /// 64-bit digest the subject's key hasher gives to `ident` (TinyLFU / SampledLFU)
     fn key_hash(&self, _ident: u32) -> Option<u64> {
         None
